@@ -1514,6 +1514,13 @@ def tree_recase_stage(ctx):
                                                           "files_recased": [("aBeta", HIER_DOT_WITNESS % "abeta")]})
             raise core.Violation("listed finding does not reproduce", path, False)
         ctx.known("%s: reproduces on its witness (Fb : aBeta vs Fb : abeta, prepareTypeHierarchy on Fb.GetLink)" % DEV_HIER_DOT)
+    elif hier_dot_witness_reproduces():
+        # repaired in /repo b1bcb45: the witness is a regression case now
+        path = core.write_replay(ctx.pid, ctx.seed, {"broken": "prepareTypeHierarchy after a dot depends on the letter case of the operand's declared type (repaired by b1bcb45, back again)",
+                                                      "engine": "tree_recase", "kind": "witness", "mode": None,
+                                                      "files": [("aBeta", HIER_DOT_WITNESS % "aBeta")],
+                                                      "files_recased": [("aBeta", HIER_DOT_WITNESS % "abeta")]})
+        raise core.Violation("re-casing the declared type of the operand before a dot changes prepareTypeHierarchy on the member after it", path, True)
     pairs, hist = tree_recase_pairs(ctx)
     res = tree_recase_run(pairs)
     stats, skipped = {}, {}
